@@ -16,6 +16,13 @@ What a run does
      catalogue (see CATALOGUE): unitary preserved (1e-8 exact classes, 1e-6
      analytic, sqrt(2*threshold) numerical, or unchanged input), advertised
      postconditions, no exception on valid input.
+  4. (strengthening round, harness/c10_strong.py) role gates (MPRY/MPRZ with
+     the target at every position, controlled gates) at structured locations
+     and BLOCK VARIANTS (re-parameterised from outside, one CircuitGate object
+     used twice, nested, hand-built at unsorted locations) for every pass that
+     looks at locations or handles CircuitGate blocks; MGDPass on hand-built
+     multiplexors with its location re-ordering tied to the Lean model
+     Mux.moveLast; the catalogue audited against the live package.
 Passes that call the runtime run in-process on a sequential stand-in for
 `get_runtime()` (c10_lib.InProcRuntime); a small sample additionally goes
 through one real `Compiler(num_workers=4)` under the machine-wide runtime lock.
@@ -71,6 +78,8 @@ CATALOGUE = {
                  'ExtractDiagonalPass(not exported)',
                  'GeneralSQDecomposition'],
     'decided elsewhere': {
+        # (ForEachBlockPass is ALSO run here, around catalogue passes on
+        #  re-parameterised blocks: the parameter hand-over to the body)
         'C11 control flow': ['DoWhileLoopPass', 'ForEachBlockPass',
                              'IfThenElsePass', 'WhileLoopPass', 'DoThenDecide',
                              'ParallelDo', 'predicates'],
